@@ -181,12 +181,22 @@ func (w *W) c10Check(pj *simdjson.ParsedJson, want []*ref.Value, cs *ev.Case, ct
 				if err != nil {
 					return err
 				}
+				first, err := a.MarshalJSON()
+				if err != nil {
+					return err
+				}
+				// marshalling reads: the same handle gives the same text again
 				at, err = a.MarshalJSONBuffer([]byte("PFX"))
 				if err == nil {
 					if !bytes.HasPrefix(at, []byte("PFX")) {
 						return fmt.Errorf("Array.MarshalJSONBuffer did not append to the destination")
 					}
 					at = at[3:]
+					if !bytes.Equal(first, at) {
+						return fmt.Errorf("second marshal of the same Array gives %s, the first gave %s", q(at), q(first))
+					}
+				} else {
+					err = fmt.Errorf("second marshal of the same Array: %w", err)
 				}
 				return err
 			})
@@ -212,12 +222,21 @@ func (w *W) c10Check(pj *simdjson.ParsedJson, want []*ref.Value, cs *ev.Case, ct
 				if err != nil {
 					return err
 				}
+				first, err := els.MarshalJSON()
+				if err != nil {
+					return err
+				}
 				ot, err = els.MarshalJSONBuffer([]byte("PFX"))
 				if err == nil {
 					if !bytes.HasPrefix(ot, []byte("PFX")) {
 						return fmt.Errorf("Elements.MarshalJSONBuffer did not append to the destination")
 					}
 					ot = ot[3:]
+					if !bytes.Equal(first, ot) {
+						return fmt.Errorf("second marshal of the same Elements gives %s, the first gave %s", q(ot), q(first))
+					}
+				} else {
+					err = fmt.Errorf("second marshal of the same Elements: %w", err)
 				}
 				return err
 			})
